@@ -479,6 +479,7 @@ def run(ctx):
     })
     if ctx.failures and not ctx.violations:
         search(ctx, exes, drv)
+    runtime_layer(ctx)
     core.finish(ctx, level="proof", extra_assumptions=ASSUME,
                 checker_cmd="python3 tools/gen/gen_ctx.py ; cd /verif/coq && coqc -Q . LF gen/CtxGen.v CtxProofs.v "
                             "Properties_C19.v (coqc 8.16.1, full .vo)")
@@ -492,7 +493,41 @@ def corpus(ctx):
         return []
 
 
+def runtime_layer(ctx):
+    """'a fiber observes on resumption exactly the ... stack pointer and stack contents it had when it was switched out
+    ... switching on behalf of another thread': the swap itself is proved (Ctx*.v); that the RUNTIME only ever swaps
+    into a context whose saving swap has completed is judged here on the whole real runtime (T2 machine of C01): every
+    switch target must be a saved context, never one that is still live on another kernel thread."""
+    import random
+    from vf.props import C01
+    exe = C01.build(ctx)
+    if not exe:
+        return
+    rng = random.Random(ctx.seed * 7919 + 191)
+    n = 200 if ctx.tier == "quick" else 4000
+    cases = []
+    for _ in range(n):
+        nk = rng.choice([2, 2, 3, 3, 4])
+        progs = [[(rng.choice([10, 10, 10, 11, 1, 3, 2, 9, 14, 18]), rng.randint(0, 1)) for _ in range(rng.randint(1, 5))]
+                 for _f in range(rng.randint(1, 4))]
+        cases.append(core.fmt_case([60000, nk], progs,
+                                   core.random_sched(rng, nk, rng.randint(30, 2000), rng.choice([0, 1, 2, 3, 3]))))
+    impl = core.run_sharded([exe], cases, timeout=900)
+    bad = 0
+    for c, line in zip(cases, impl):
+        why = core.safe_monitor(C01.monitor, c, core.parse_trace(line) if line is not None else None, line)
+        if why:
+            bad += 1
+            if bad <= 3:
+                core.report_violation(ctx, "kernel", c, "whole-runtime layer: " + why, line)
+    ctx.coverage["runtime_switch_layer_t2"] = {"runs": len(cases), "violations": bad}
+    ctx.oblige("switch-target-saved-t2(%d runs)" % len(cases), bad == 0, "%d runs judged a violation" % bad)
+
+
 def replay(ctx, payload):
+    if payload.get("harness") == "kernel":
+        from vf.props import C01
+        return C01.replay(ctx, payload)
     c = payload.get("case")
     label = payload.get("harness", "")
     if not c:
